@@ -251,6 +251,8 @@ pub struct Ctl {
     pub panics: Vec<String>,
     pub evbuf: Vec<String>,
     pub last_events: Vec<String>,
+    /// name of the call started by the line being recorded
+    pub started: Option<&'static str>,
     /// `[thread, pinned bit, live guards]` observed inside a reactivate_after closure in this step
     pub ra: Vec<usize>,
     /// values stored into the global epoch during this step, in order
@@ -277,7 +279,7 @@ impl Ctl {
                 )
             })
             .collect();
-        Ctl { ws, ps: Vec::new(), ts: Vec::new(), out: Vec::new(), sc: 0, line: 0, panics: Vec::new(), evbuf: Vec::new(), last_events: Vec::new(), ra: Vec::new(), adv: Vec::new(), site_hits: Default::default(), op_hits: Default::default(), collector: None, graveyard: Vec::new() }
+        Ctl { ws, ps: Vec::new(), ts: Vec::new(), out: Vec::new(), sc: 0, line: 0, panics: Vec::new(), evbuf: Vec::new(), last_events: Vec::new(), started: None, ra: Vec::new(), adv: Vec::new(), site_hits: Default::default(), op_hits: Default::default(), collector: None, graveyard: Vec::new() }
     }
     pub fn nt(&self) -> usize {
         self.ws.len()
@@ -353,6 +355,7 @@ impl Ctl {
         self.ps[t].cur = Some(op.clone());
         self.ps[t].nops += 1;
         self.ws[t].start(op.clone());
+        self.started = Some(op.name());
         self.after(t, "start", &format!("{:?}", op));
     }
     pub fn step(&mut self, t: usize) {
@@ -466,13 +469,16 @@ impl Ctl {
         let mut s = String::with_capacity(512);
         let _ = write!(
             s,
-            "{{\"i\":{},\"sc\":{},\"k\":\"{}\",\"t\":{},\"what\":{:?},\"site\":{},\"gep\":{},\"thr\":[",
+            "{{\"i\":{},\"sc\":{},\"k\":\"{}\",\"t\":{},\"what\":{:?},\"site\":{},\"nest\":{},\"mask\":{},\"opn\":\"{}\",\"gep\":{},\"thr\":[",
             self.line,
             self.sc,
             kind,
             if t == usize::MAX { 0 } else { t + 1 },
             what,
             if t == usize::MAX { 0 } else { self.ws[t].at.unwrap_or(0) },
+            NESTED_PROG.lock().unwrap().iter().any(|p| !p.is_empty()),
+            verif::class_mask(),
+            self.started.take().unwrap_or(""),
             c.global_epoch()
         );
         for (i, p) in self.ps.iter().enumerate() {
@@ -482,7 +488,7 @@ impl Ctl {
             let li = if p.gone || p.local_id == 0 { verif::LocalInfo::default() } else { unsafe { verif::peek_local(p.local_id) } };
             let _ = write!(
                 s,
-                "{{\"lep\":{},\"pin\":{},\"gc\":{},\"hc\":{},\"bag\":{},\"col\":{},\"ug\":{},\"inst\":{},\"busy\":{},\"gone\":{},\"nonsole\":{},\"op\":\"{}\"}}",
+                "{{\"lep\":{},\"pin\":{},\"gc\":{},\"hc\":{},\"bag\":{},\"col\":{},\"ug\":{},\"inst\":{},\"busy\":{},\"gone\":{},\"nonsole\":{},\"op\":\"{}\",\"site\":{}}}",
                 li.epoch,
                 li.pinned,
                 li.guard_count,
@@ -494,7 +500,8 @@ impl Ctl {
                 self.ws[i].busy,
                 p.gone,
                 p.nonsole && p.cur.is_some(),
-                p.cur.as_ref().map(|o| o.name()).unwrap_or("")
+                p.cur.as_ref().map(|o| o.name()).unwrap_or(""),
+                self.ws[i].at.unwrap_or(0)
             );
         }
         let _ = write!(s, "],\"queue\":{:?},\"task\":[", unsafe { c.pending_bag_epochs() });
